@@ -158,7 +158,10 @@ def encSetOutcome (t : GoType) (root : GoVal) (o : SetOutcome) : String :=
 
 def opsRfl : List (String × P String) := [
   ("rfl.conv", arg pGoType fun t => arg pGoVal fun v => done (encOptValue (reflectV t v))),
-  ("rfl.json", arg pGoType fun t => arg pGoVal fun v => done (encOptValue (jsonV t v))),
+  -- a uint of 2^63 or more is decoded by the harness's reference into a float64 (it does not fit int64):
+  -- outside the numbers `jsonV` models, the line is judged on the implementation only
+  ("rfl.json", arg pGoType fun t => arg pGoVal fun v =>
+      done (if GoVal.hasTypeB (2 ^ 63) t v || !GoVal.hasType t v then encOptValue (jsonV t v) else "unsupported")),
   ("rfl.set", arg pGoType fun t => arg pGoVal fun v => arg pSteps fun p => arg pStr fun k => arg pValue fun x =>
       done (encSetOutcome t v (goSetAt t v p k x))),
   ("rfl.del", arg pGoType fun t => arg pGoVal fun v => arg pSteps fun p => arg pStr fun k =>
